@@ -1,0 +1,42 @@
+//go:build verif
+// +build verif
+
+package dkg
+
+import (
+	"context"
+
+	"github.com/DOSNetwork/core/log"
+)
+
+// Verification hooks for the panic-freedom property (build tag verif): thin
+// exports of unexported entry points, no logic of their own.
+
+// VerifPSession is one (buffer, pending request) pair of pdkg.Loop.
+type VerifPSession struct {
+	buf map[string][]interface{}
+	req map[string]request
+}
+
+func VerifPNewSession() *VerifPSession {
+	return &VerifPSession{buf: make(map[string][]interface{}), req: map[string]request{}}
+}
+
+// PeerMsg is handlePeerMsg on this pair of maps.
+func (s *VerifPSession) PeerMsg(sessionID string, content interface{}) {
+	handlePeerMsg(s.buf, s.req, nil, sessionID, content)
+}
+
+// Request is handleRequest on this pair of maps.
+func (s *VerifPSession) Request(ctx context.Context, reqType int, sessionID string, numOfResps int, reply chan []interface{}) {
+	handleRequest(s.buf, s.req, request{ctx: ctx, reqType: reqType, sessionID: sessionID, numOfResps: numOfResps, reply: reply})
+}
+
+// Buffered / Pending expose the two maps' entries for one session id.
+func (s *VerifPSession) Buffered(sessionID string) int { return len(s.buf[sessionID]) }
+func (s *VerifPSession) Pending(sessionID string) bool { _, ok := s.req[sessionID]; return ok }
+
+// VerifPExchangePub is exchangePub (the p2p argument is unused by it).
+func VerifPExchangePub(ctx context.Context, selfPubc chan interface{}, peerPubc chan []interface{}, groupIds [][]byte, sessionID string) (chan []*PublicKey, chan error) {
+	return exchangePub(ctx, log.New("module", "dkg"), selfPubc, peerPubc, nil, groupIds, sessionID)
+}
